@@ -297,7 +297,8 @@ impl<'r> Gen<'r> {
                 if k > 0 {
                     self.op(",");
                 }
-                self.type_ref(depth + 1);
+                // type arguments are type identifiers
+                self.type_ref(depth + 2);
             }
             let i = self.op(">");
             self.p.toks[i].tight_left = true;
@@ -1469,6 +1470,71 @@ impl<'r> Gen<'r> {
                         self.kw("of");
                         self.kw("object");
                     }
+                }
+                9 => {
+                    // record with a variant part
+                    self.feat("variant-record");
+                    let head = self.kw("record");
+                    self.mark_line_end();
+                    let body_bi = self.p.blocks.len();
+                    self.p.blocks.push(Block { kind: BlockKind::TypeBody, opener: head, closer: None, items: vec![], anchors: vec![m] });
+                    self.depth += 1;
+                    let nf = self.rng.below(3);
+                    for _ in 0..nf {
+                        let f = self.new_name("F");
+                        self.mark_line_start(f);
+                        self.p.blocks[body_bi].items.push(f);
+                        self.op(":");
+                        self.type_ident(false);
+                        self.semi();
+                    }
+                    let c = self.kw("case");
+                    self.mark_line_start(c);
+                    if self.rng.bool() {
+                        self.new_name("Tag");
+                        self.op(":");
+                    }
+                    let t = *self.rng.pick(&["Integer", "Boolean", "Byte", "TKind"]);
+                    self.push(t, GK::Ident);
+                    self.kw("of");
+                    self.mark_line_end();
+                    self.depth += 1;
+                    let nv = self.rng.range(1, 3);
+                    for v in 0..nv {
+                        let lab = self.p.toks.len();
+                        if self.rng.chance(1, 3) {
+                            self.number_small();
+                            self.op(",");
+                        }
+                        self.number_small();
+                        self.mark_line_start(lab);
+                        self.op(":");
+                        self.op("(");
+                        let nfl = self.rng.range(0, 3);
+                        for k in 0..nfl {
+                            if k > 0 {
+                                self.op(";");
+                            }
+                            self.new_name("V");
+                            if self.rng.chance(1, 4) {
+                                self.op(",");
+                                self.new_name("W");
+                            }
+                            self.op(":");
+                            self.type_ident(false);
+                        }
+                        self.op(")");
+                        // the last variant may omit the semicolon
+                        if v + 1 < nv || self.rng.bool() {
+                            self.semi();
+                        } else {
+                            self.mark_line_end();
+                        }
+                    }
+                    self.depth -= 2;
+                    let e = self.kw("end");
+                    self.mark_line_start(e);
+                    self.p.blocks[body_bi].closer = Some(e);
                 }
                 7 => {
                     self.feat("subrange-type");
